@@ -894,6 +894,17 @@ int main(int argc, char** argv) {
     flk.chunk = 16;
     flk.rule = "objects {\"<prefix><cut escape>... whose first key is a prefix (0, 1, 2, 30 bytes) followed by one of 14 complete or cut-off escapes (\\, \\u, \\u0 .. \\u0041, high surrogate with 0..6 bytes of the low one, \\n, \\x), the text ending right there or after the closing quote / colon / value / a second member; alone or as the second member; looked up by keys that equal the prefix, extend it by one, two or five bytes, or decode the complete escape";
     fams.push_back(flk);
+    // LL: LONG keys holding an escape, standing close to the END of the input (a key scratch copy that is rounded up
+    // to whole vectors, a decoder that loads a full block): every raw key length 20..200, the escape at the start /
+    // middle / end, 5 things behind the key
+    static const char* LL_AFTER[5] = {"\":1}", "\":\"\"}", "\":1,\"b\":2}", "\"", "\":"};
+    vr::Family fll;
+    fll.name = "LL_long_escaped_keys_near_the_end";
+    fll.count = (uint64_t)181 * 3 * 5 * 2;
+    fll.group = "LL";
+    fll.chunk = 16;
+    fll.rule = "objects whose last (or only) key has every raw length 20..200 and one escape (\\n) at its start / middle / end, followed by :1} / :\"\"} / :1,\"b\":2} / nothing / a colon only; alone or after a first member; looked up by the decoded key, by a key one byte longer and by an absent key; exact-size heap block (ASan) / page end (production), views and misaligned starts";
+    fams.push_back(fll);
     check = [&](const vr::Family& f, uint64_t idx, vr::Ctx& ctx) {
       if (f.name == "LK_keys_with_cut_escapes") {
         unsigned second = (unsigned)(idx % 2);
@@ -920,6 +931,38 @@ int main(int argc, char** argv) {
           C11Res alone = c11_call(pe, text.size(), jp, text, "page-end", ctx, true);
 #endif
           c11_views(text, jp, 0, alone, scratch.data(), ctx);
+        }
+        return;
+      }
+      if (f.name == "LL_long_escaped_keys_near_the_end") {
+        unsigned second = (unsigned)(idx % 2);
+        idx /= 2;
+        const std::string after = LL_AFTER[idx % 5];
+        idx /= 5;
+        unsigned where = (unsigned)(idx % 3);
+        unsigned L = (unsigned)(idx / 3) + 20;
+        unsigned p = where == 0 ? 0 : where == 1 ? (L - 2) / 2 : L - 2;
+        std::string raw = std::string(p, 'x') + "\\n" + std::string(L - 2 - p, 'y');
+        std::string dec = std::string(p, 'x') + "\n" + std::string(L - 2 - p, 'y');
+        std::string text = std::string(second ? "{\"k\":[1,{\"a\":2}]," : "{") + "\"" + raw + after;
+        if (ctx.want_sample) ctx.sample("raw key length " + std::to_string(L) + " escape at " + std::to_string(p) + " then " + after);
+        ctx.nontriv();
+        std::vector<std::string> wanted = {dec, dec + "z", "zz", "b"};
+        std::vector<uint8_t> scratch(text.size() + 256);
+#if HAVE_ASAN
+        ExactBuf b(text);
+#else
+        const uint8_t* pe = guard.at_end(text);
+#endif
+        for (size_t k = 0; k < wanted.size(); k++) {
+          JsonPointer jp({JsonPointerNode(wanted[k])});
+#if HAVE_ASAN
+          C11Res alone = c11_call((const uint8_t*)b.p, b.n, jp, text, "exact-heap", ctx, true);
+#else
+          C11Res alone = c11_call(pe, text.size(), jp, text, "page-end", ctx, true);
+#endif
+          c11_views(text, jp, 0, alone, scratch.data(), ctx);
+          if (k == 0) c11_misaligned(text, jp, alone, scratch.data(), ctx);
         }
         return;
       }
